@@ -5,7 +5,7 @@ Abstract input for one key k and an incoming stamp `in`: the set holds k in the 
 map with a stamp d, or not at all; e / d is below, equal to or above `in`.  (A key in both maps is excluded: exclusivity is
 itself one of the checked post-conditions, and it holds initially.)"""
 import absint
-from absint import Interp, Order, Cell, MapObj, Unmodelled, explore, mk_option
+from absint import Interp, Order, Cell, MapObj, Unmodelled, explore, mk_option, mk_bool, NeedChoice, PanicPath, UNIT
 from facts import strip_generics, last_seg, ty_head, ty_args
 
 CR = 'datacake_crdt'
@@ -649,3 +649,57 @@ def check_purge(ctx, facts, rule):
                'purge on %s with the stamp %sbefore the purge cut-off: expected (returned, live, tombstone) = %s, the code gives %s' % (lab, '' if bad[0][0] else 'not ', bad[0][2], bad[0][1]),
                witness={'abstract_input': lab, 'mismatches': [{'before_cutoff': a, 'got': str(b), 'expected': str(c)} for a, b, c in bad]})
     return True
+
+
+def check_wrappers(ctx, facts, rule):
+    """the source-less `insert` / `delete` (used by the restart replay and by single-source sets) ARE `insert_with_source` /
+    `delete_with_source` under one constant source: interpreted with the set opaque and the two sourced mutators recorded effects, a
+    wrapper makes exactly one call to its twin with the caller's key and stamp, returns its answer, and touches the set through nothing
+    else.  (Round 6, C07f: wrappers that first marked the stamp as observed on every other source made a restarted node claim the repair
+    source had seen everything — it then discards older peer entries it lacks.)"""
+    try:
+        roles = Roles(facts)
+        done = 0
+        for wname, twin in (('insert', 'insert_with_source'), ('delete', 'delete_with_source')):
+            body = roles.method(facts, wname)
+            if body is None or body.cfg is None:
+                continue
+            bad = []
+            for answer in (True, False):
+                calls = []
+                other = []
+
+                def hook(interp, name, args, t, b, calls=calls, other=other, answer=answer):
+                    seg = last_seg(name)
+                    a0 = interp.deref_all(args[0]) if args else None
+                    on_set = a0 is not None and a0[0] == 'opaque' and str(a0[1]).startswith('the-set')
+                    if name.startswith(CR + '::') and on_set:
+                        if seg in ('insert_with_source', 'delete_with_source'):
+                            calls.append((seg, [interp.deref_all(a) for a in args[1:]]))
+                            return mk_bool(answer)
+                        other.append(name)
+                        ty = b.local_ty(t['dest']['l'])
+                        return ('bool', None) if ty == 'bool' else UNIT if ty == '()' else ('opaque', 'r')
+                    return None
+                it = Interp(facts, Order({}), opaque_call=hook, step_limit=20000)
+                it.opaque_fields = True
+                r = it.deref_all(it.run_body(body, [('ref', Cell(('opaque', 'the-set'))), ('key', 'k'), ('ts', 'in')]))
+                label = 'the sourced mutator answers %s' % answer
+                if len(calls) != 1 or calls[0][0] != twin:
+                    bad.append('%s: `%s` makes %d call(s) to the sourced mutators (%s), expected exactly one to `%s`' % (label, wname, len(calls), ', '.join(c[0] for c in calls), twin))
+                    continue
+                src, k, ts = (calls[0][1] + [None, None, None])[:3]
+                if src is None or src[0] != 'int' or src[1] is None:
+                    bad.append('%s: the source `%s` applies the operation under is not a constant' % (label, wname))
+                if k != ('key', 'k') or ts != ('ts', 'in'):
+                    bad.append('%s: `%s` hands its twin another key / stamp than the caller\'s (%s, %s)' % (label, wname, k, ts))
+                if other:
+                    bad.append('%s: `%s` also touches the set through %s — the replayed operation must leave the set exactly as the sourced mutator does' % (label, wname, ', '.join(sorted(set(last_seg(o) for o in other)))))
+                if r is None or r[0] != 'bool' or r[1] is not answer:
+                    bad.append('%s: `%s` does not return its twin\'s answer' % (label, wname))
+            done += 1
+            ctx.ob(rule, 'wrapper|%s' % wname, not bad, '%s:%s' % (body.file, body.line),
+                   'OrSWotSet::%s is %s under one constant source, nothing else' % (wname, twin) if not bad else bad[0])
+        return done > 0
+    except (Unmodelled, NeedChoice, PanicPath, IndexError, TypeError, KeyError, AttributeError, RecursionError) as e:
+        return _fallback(ctx, rule, e)
